@@ -67,7 +67,7 @@ Proof.
     clearbody st3 st2 st1 active failed pr.
     assert (Hsame : same_but_nodes st' st3).
     { destruct active.
-      - destruct (Hact eq_refl) as [_ [_ [rep [nb [_ [_ [[_ ->] | [_ [sel [_ ->]]]]]]]]]]; [apply same_refl | apply with_canary_nodes_same].
+      - destruct (Hact eq_refl) as [_ [_ [rep [nb [_ [_ [[_ ->] | [_ [sel [en [_ ->]]]]]]]]]]]; [apply same_refl | apply with_canary_nodes_same].
       - destruct (Hinact eq_refl) as [-> _]. apply same_refl. }
     destruct Hsame as [S1 [S2 [S3 [S4 [S5 [S6 [S7 [S8 [S9 S10]]]]]]]]].
     rewrite S1, S2, S3, S4, S5, S6, S7, S8, S9, S10.
